@@ -277,9 +277,34 @@ class Monitor:
         if g2 != e2:
             gi, ei = _reconcile(got, expi)
             cls = "integer-time-visibility" if gi == ei else None
+            if cls is None and self.cfg.get("cache", True) and self._only_foreign_init(sid, g2, e2):
+                cls = "initial-data-shared-via-cache"
             self.add("C03", "wrong-inputs",
                      f"{sid}@{tt} inputs {_short(g2)} expected {_short(e2)}",
                      cls=cls, sim=sid, got=g2, exp=e2)
+
+    def _only_foreign_init(self, sid, got, exp):
+        """classifier of F14: every deviating entry is the initial data that was declared on a
+        *different* connection from the same source attribute, seen where this connection has
+        nothing to deliver (cache=True only)"""
+        T = self.T
+        diffs = 0
+        for e in set(got) | set(exp):
+            for a in set(got.get(e, {})) | set(exp.get(e, {})):
+                gk, xk = got.get(e, {}).get(a, {}), exp.get(e, {}).get(a, {})
+                for key in set(gk) | set(xk):
+                    if gk.get(key) == xk.get(key):
+                        continue
+                    diffs += 1
+                    p = key.split(".")[0]
+                    mine = [c for c in T.conns if c["dst"] == sid and c["src"] == p and c.get("dattr") == a]
+                    if not mine or any(c.get("init") for c in mine) or xk.get(key, NONE) != NONE:
+                        return False
+                    others = [c for c in T.conns if c["src"] == p and c.get("sattr") == mine[0]["sattr"]
+                              and c.get("init") and c not in mine]
+                    if not others or gk.get(key) != init_token(others[0]):
+                        return False
+        return diffs > 0
 
     # ------------------------------------------------------------------------
     def on_step_ret(self, ev):
